@@ -8,6 +8,12 @@ PY = "/venv/bin/python"
 
 # id -> (technique, level text, level note, design ref)
 CHECKS = {
+    "C12": (
+        "exhaustive enumeration of the live class registry with type-directed constructor arguments + Hypothesis over argument subsets; oracle = property read-back, well-formedness, same-class/C14N-equal re-parse, and class dispatch through every access path",
+        "Every registered class is built with each constructor argument alone (two values), with all together and with random subsets; supplied arguments must be exposed by their properties, the serialisation must re-parse into the same class with equal infoset and property values, and one element of every registered tag nested in a document must come back as its registered class through from_tag, children, get_elements, get_element, xpath, parent, root descent, clone and XmlPart load.",
+        "Argument read-back limited to attribute-backed / explicitly tabulated properties; falsy arguments documented as ignored are not judged.",
+        "DESIGN.md 3/C12",
+    ),
     "C13": (
         "Hypothesis over style-editing histories with an independent lxml index of (part, container, tag, family, name) as oracle for placement/uniqueness and fingerprinted styles for lookup identity",
         "On the templates and style-rich samples, generated sequences of insert_style (every family, object or XML string, named/unnamed, automatic/default/common, colliding names), set_table_displayed, add_page_break_style, delete_styles, merge_styles_from and save+reload are judged after every step: no duplicate key beyond the source baseline, documented container, the returned name finds exactly the inserted style (also after reload), generated automatic names are new, merges give the union with the other document winning and leave it unchanged.",
